@@ -408,27 +408,102 @@ func c14analyse(g *c14graph) c14info {
 }
 
 // c14cycleClass names where, seen from the root, a cyclic graph hides its
-// cycle: follow slot 0 of arrays/structs and the only entry of single-entry
-// maps.  If that walk closes a cycle the class is "cycle-at-slot0"; if it
-// reaches a map with several entries (no distinguished first entry)
-// "cycle-behind-multi-entry-map"; otherwise every cycle is reachable only
-// through a slot > 0: "cycle-via-slot>0".
+// cycle.  The "first-slot walk" follows slot 0 of arrays/structs and the only
+// entry of single-entry maps.  If that walk itself closes a cycle the class is
+// "cyclic:first-slot-path".  Otherwise some container X on the walk holds, in
+// a slot > 0 (or, for a map with several entries, in one of its unordered
+// entries), a reference from which a cycle is reachable; the class names the
+// kind of the first such X: "cyclic:behind-array-slot>0",
+// "cyclic:behind-struct-slot>0", "cyclic:behind-unordered-map-entry".
 func c14cycleClass(g *c14graph) string {
+	n := len(g.kinds)
+	reach := make([][]bool, n)
+	for i := range reach {
+		reach[i] = make([]bool, n)
+		for _, s := range g.slots[i] {
+			if s.ref >= 0 {
+				reach[i][s.ref] = true
+			}
+		}
+	}
+	for k := 0; k < n; k++ {
+		for i := 0; i < n; i++ {
+			if reach[i][k] {
+				for j := 0; j < n; j++ {
+					if reach[k][j] {
+						reach[i][j] = true
+					}
+				}
+			}
+		}
+	}
+	reachesCycle := func(v int) bool {
+		if reach[v][v] {
+			return true
+		}
+		for u := 0; u < n; u++ {
+			if reach[v][u] && reach[u][u] {
+				return true
+			}
+		}
+		return false
+	}
+	multi := func(i int) bool { return g.kinds[i] == 'M' && len(g.slots[i]) >= 2 }
+	var walk []int
 	seen := map[int]bool{}
-	i := 0
-	for {
+	for i := 0; ; {
 		if seen[i] {
-			return "cycle-at-slot0"
+			return "cyclic:first-slot-path"
 		}
 		seen[i] = true
-		if g.kinds[i] == 'M' && len(g.slots[i]) >= 2 {
-			return "cycle-behind-multi-entry-map"
-		}
-		if len(g.slots[i]) == 0 || g.slots[i][0].ref < 0 {
-			return "cycle-via-slot>0"
+		walk = append(walk, i)
+		if multi(i) || len(g.slots[i]) == 0 || g.slots[i][0].ref < 0 {
+			break
 		}
 		i = g.slots[i][0].ref
 	}
+	for _, x := range walk {
+		start := 1
+		if multi(x) {
+			start = 0
+		}
+		for j := start; j < len(g.slots[x]); j++ {
+			if t := g.slots[x][j].ref; t >= 0 && reachesCycle(t) {
+				switch {
+				case g.kinds[x] == 'A':
+					return "cyclic:behind-array-slot>0"
+				case g.kinds[x] == 'S':
+					return "cyclic:behind-struct-slot>0"
+				}
+				return "cyclic:behind-unordered-map-entry"
+			}
+		}
+	}
+	return "cyclic:unclassified"
+}
+
+var c14api = map[string]string{"detect": "CircularRefAndDepthDetection", "serialize": "Serialize", "native": "BuildParamToNative", "stringify": "Stringify",
+	"dump": "Dump", "hexstring": "ConvertNeoVmValueHexString", "resultfromneo": "BuildResultFromNeo"}
+
+// c14key is the violation key for op failing with outcome on a case of class
+// cls: <API>:<input class>:<outcome>, with the input class worded as the
+// defect it exposes.
+func c14key(op, cls, outcome string) string {
+	api := c14api[op]
+	if api == "" {
+		api = op
+	}
+	switch cls {
+	case "cyclic:behind-array-slot>0":
+		cls = "cycle-undetected:array:ref-not-in-first-slot"
+	case "cyclic:behind-struct-slot>0":
+		cls = "cycle-undetected:struct:ref-not-in-first-slot"
+	case "cyclic:behind-unordered-map-entry":
+		cls = "cycle-undetected:map:ref-not-in-first-iterated-entry"
+	case "cyclic:first-slot-path":
+		cls = "cycle-on-first-slot-path"
+	}
+	return api + ":" + cls + ":" + outcome
 }
 
 // canonical: all nodes reachable from node 0 and numbered in DFS discovery
@@ -477,6 +552,14 @@ func c14families(tier string) []c14family {
 }
 
 var c14primSyms = []string{"p0", "p3", "p1", "p2", "p4", "p5"} // first k are used by a family with k primitives
+
+// c14minimalCyclic: the smallest cyclic values of every class.  They are run
+// first, on their own (phase 1): if an operation runs away on a class, it does
+// so -- and is decided under the default stack limit -- on the cheapest
+// representative, and the class is then left out of the big enumeration.
+func c14minimalCyclic() []string {
+	return []string{"A:n0", "S:n0", "M:n0", "A:p0,n0", "S:p0,n0", "M:p0,n0", "M:n0,p0", "M:p0,p0,n0", "A:p0,n1;M:n0", "A:n1;M:p0,n0", "S:p0,n1;M:p0,n2;S:p0,n0"}
+}
 
 // c14special: depth-limit, size-limit and primitive-boundary cases.
 func c14special() []string {
@@ -539,8 +622,8 @@ func c14special() []string {
 		"M:300*p0",
 		"M:130*p1",
 		// shared sub-values: expanded 1024 times; expanded twice to exactly the size limit / one step above it
-		"A:1024*n1;A:40*p0",
-		"S:512*n1;M:20*p3",
+		"A:1024*n1;A:6*p0",
+		"S:128*n1;M:20*p3",
 		"A:n1,n1;S:b"+strconv.Itoa((constants.MAX_BYTEARRAY_SIZE-18)/2),
 		"A:n1,n1;S:b"+strconv.Itoa((constants.MAX_BYTEARRAY_SIZE-18)/2+1),
 		"A:n1,n1,n1;A:n2,n2,n2;A:n3,n3,n3;A:n4,n4,n4;A:n5,n5,n5;A:n6,n6,n6;A:n7,n7,n7;A:n8,n8,n8;S:p0,p5",
@@ -548,7 +631,6 @@ func c14special() []string {
 		"A:20*p0,n0",
 		"A:n1,n1,n1;A:n2,n2,n2;A:n3,n3,n3;A:n4,n4,n4;A:p0,n0",
 		"A:p0,n1;A:p0,n2;A:p0,n3;A:p0,n4;A:p0,n5;A:p0,n6;A:p0,n7;A:p0,n8;A:p0,n9;A:p0,n0",
-		"M:n0", "M:p0,n0", "M:p0,p0,n0", "A:p0,n1;M:n0", "S:p0,n1;M:p0,n2;S:p0,n0",
 	)
 	return out
 }
@@ -723,7 +805,7 @@ func c14errClass(err error) string {
 
 var c14ops = []string{"detect", "serialize", "native", "stringify", "dump", "hexstring", "resultfromneo"}
 
-const c14reps = 64 // repetitions of an op on a cyclic graph that contains a multi-entry map (Go map order is random)
+const c14reps = 256 // repetitions of an op on a cyclic graph that contains a multi-entry map (Go map order is random)
 
 type c14viol struct {
 	Key    string `json:"key"`
@@ -788,7 +870,7 @@ func c14runOp(v *VmValue, g *c14graph, in *c14info, op string) (class string, ke
 			}
 		})
 		if p != "" {
-			return op + ":panic", op + ":panic:" + in.cls, fmt.Sprintf("%s on %s panicked: %s", op, g, p)
+			return op + ":panic", c14key(op, in.cls, "panic"), fmt.Sprintf("%s on %s panicked: %s", op, g, p)
 		}
 		if rejected {
 			out = "rejected"
@@ -797,11 +879,11 @@ func c14runOp(v *VmValue, g *c14graph, in *c14info, op string) (class string, ke
 		}
 		if in.cyclic {
 			if !rejected {
-				k := op + ":" + in.cls + ":no-error"
 				if op == "detect" {
-					k = op + ":" + in.cls + ":undetected"
+					// the detector is the mechanism, not a serializer: its answer is recorded, the verdict comes from the marshalling ops
+					return "detect:" + in.cls + ":undetected", "", ""
 				}
-				return op + ":cyclic:accepted", k, fmt.Sprintf("%s on the cyclic value %s returned without an error (repetition %d)", op, g, rep)
+				return op + ":cyclic:accepted", c14key(op, in.cls, "no-error"), fmt.Sprintf("%s on the cyclic value %s returned without an error (repetition %d)", op, g, rep)
 			}
 			continue
 		}
@@ -853,7 +935,7 @@ func c14runOp(v *VmValue, g *c14graph, in *c14info, op string) (class string, ke
 		}
 	}
 	if in.cyclic {
-		return op + ":cyclic:rejected:" + in.cls, "", ""
+		return op + ":" + in.cls + ":rejected", "", ""
 	}
 	if !in.within {
 		// the statement is silent on values outside the limits: only termination without panic is required
@@ -876,6 +958,7 @@ type c14work struct {
 	SkipKeys []string `json:"skipkeys"` // "op:class" combinations no longer run (cap after repeated deaths)
 	Descs    []string `json:"descs"`    // explicit cases instead of the enumeration (replay / hang confirmation)
 	Ops      []string `json:"ops"`      // restrict ops (explicit cases)
+	MaxStack int      `json:"maxstack"` // MiB; 0 = 8; <0 = the runtime's default (1 GB on 64-bit)
 	Progress string   `json:"progress"`
 	Results  string   `json:"results"`
 }
@@ -891,7 +974,16 @@ func TestVerif_C14_Worker(t *testing.T) {
 	if err := json.Unmarshal([]byte(spec), &w); err != nil {
 		t.Fatalf("bad work spec: %v", err)
 	}
-	debug.SetMaxStack(64 << 20)
+	if w.MaxStack == 0 {
+		w.MaxStack = 8
+	}
+	if w.MaxStack > 0 {
+		debug.SetMaxStack(w.MaxStack << 20)
+	}
+	// no GC cycles while a runaway recursion is growing the stack (every cycle would rescan the whole deep stack):
+	// collect only when the heap reaches the soft limit
+	debug.SetGCPercent(-1)
+	debug.SetMemoryLimit(768 << 20)
 	// address-space cap so that a runaway allocation cannot hurt the shared machine
 	lim := syscall.Rlimit{Cur: 6 << 30, Max: 6 << 30}
 	syscall.Setrlimit(syscall.RLIMIT_AS, &lim)
@@ -1080,7 +1172,7 @@ func c14spawn(w c14work, dir string, n int, stall time.Duration, stop func() boo
 		}
 	}
 	cmd := exec.Command(bin, "-test.run", "^TestVerif_C14_Worker$", "-test.timeout", "0", "-test.count", "1")
-	cmd.Env = append(os.Environ(), "VERIF_C14_WORK="+string(spec), "VERIF_OUT=", "VERIF_REPLAY=", "GOTRACEBACK=single")
+	cmd.Env = append(os.Environ(), "VERIF_C14_WORK="+string(spec), "VERIF_OUT=", "VERIF_REPLAY=", "GOTRACEBACK=none")
 	cmd.Dir = dir
 	ef, _ := os.Create(errPath)
 	cmd.Stdout, cmd.Stderr = ef, ef
@@ -1093,7 +1185,9 @@ func c14spawn(w c14work, dir string, n int, stall time.Duration, stop func() boo
 	doneCh := make(chan error, 1)
 	go func() { doneCh <- cmd.Wait() }()
 	var werr error
-	lastSeq, lastChange := uint64(0), time.Now()
+	// watchdog: the worker is stalled when it burned `stall` of CPU time (or 20x that of wall time, for a blocked
+	// process) without publishing a new (case, op) -- CPU time, so that an overloaded machine does not look like a hang
+	lastSeq, lastChange, lastCPU := uint64(0), time.Now(), c14cpu(cmd.Process.Pid)
 	tick := time.NewTicker(200 * time.Millisecond)
 	defer tick.Stop()
 loop:
@@ -1103,9 +1197,10 @@ loop:
 			break loop
 		case <-tick.C:
 			seq, _, _, _, _ := c14readProgress(w.Progress)
+			cpu := c14cpu(cmd.Process.Pid)
 			if seq != lastSeq {
-				lastSeq, lastChange = seq, time.Now()
-			} else if time.Since(lastChange) > stall || stop() {
+				lastSeq, lastChange, lastCPU = seq, time.Now(), cpu
+			} else if cpu-lastCPU > stall || time.Since(lastChange) > 20*stall || stop() {
 				ex.hung = !stop()
 				cmd.Process.Kill()
 				werr = <-doneCh
@@ -1154,6 +1249,25 @@ loop:
 	return batches, ex
 }
 
+// c14cpu returns the CPU time (user+system) consumed so far by process pid.
+func c14cpu(pid int) time.Duration {
+	b, err := os.ReadFile("/proc/" + strconv.Itoa(pid) + "/stat")
+	if err != nil {
+		return 0
+	}
+	s := string(b)
+	if i := strings.LastIndexByte(s, ')'); i >= 0 {
+		s = s[i+1:]
+	}
+	f := strings.Fields(s) // f[0] is field 3 (state); utime, stime are fields 14, 15
+	if len(f) < 13 {
+		return 0
+	}
+	u, _ := strconv.ParseInt(f[11], 10, 64)
+	k, _ := strconv.ParseInt(f[12], 10, 64)
+	return time.Duration(u+k) * (time.Second / 100)
+}
+
 func c14merge(r *vh.Run, b c14batch) {
 	r.Eval(b.Evals)
 	for k, n := range b.Classes {
@@ -1175,26 +1289,199 @@ func c14merge(r *vh.Run, b c14batch) {
 	}
 }
 
-const c14deathsPerKey = 1 // after that many worker deaths of one (op, class) the combination is no longer run
+// c14slot* : machine-wide semaphore (flock) for the confirmation runs under
+// the default 1 GB stack limit, which need ~0.8 GB of memory each.
+const c14confirmSlots = 8
 
-func c14graphs(r *vh.Run, dir string) {
-	w := c14work{Tier: r.R.Tier, Shard: r.R.Shard, NShards: r.R.NShards, Batch: 20000 * r.R.NShards}
-	stall := 60 * time.Second
-	deaths := map[string]int{}
-	nproc, ndeaths, stalls := 0, 0, 0
-	finished := false
-	for !finished {
+func c14acquireSlot(stop func() bool) *os.File {
+	dir := filepath.Join(os.TempDir(), "..", "c14slots")
+	if os.Getenv("VERIF_DIR") != "" {
+		dir = filepath.Join(os.Getenv("VERIF_DIR"), "build", "tmp", "c14slots")
+	}
+	os.MkdirAll(dir, 0777)
+	for {
+		for i := 0; i < c14confirmSlots; i++ {
+			f, err := os.OpenFile(filepath.Join(dir, "slot"+strconv.Itoa(i)), os.O_RDWR|os.O_CREATE, 0666)
+			if err != nil {
+				return nil // no semaphore available: run unguarded
+			}
+			if syscall.Flock(int(f.Fd()), syscall.LOCK_EX|syscall.LOCK_NB) == nil {
+				return f
+			}
+			f.Close()
+		}
+		if stop() {
+			return nil
+		}
+		time.Sleep(300 * time.Millisecond)
+	}
+}
+
+var c14procSeq int64
+var c14procMu sync.Mutex
+
+func c14nextProc() int {
+	c14procMu.Lock()
+	defer c14procMu.Unlock()
+	c14procSeq++
+	return int(c14procSeq)
+}
+
+// c14confirm re-runs one (case, op) alone under the runtime's default stack
+// limit (what a node runs with).  Only what happens there is a verdict: the
+// routine enumeration uses a 8 MiB stack to make runaway recursion cheap, and
+// a recursion that is deep but bounded (e.g. by a size cap) must not be
+// reported as a crash.
+func c14confirm(r *vh.Run, dir string, desc, op, cls string, stall time.Duration) {
+	cs := c14case{Desc: desc, Op: op}
+	never := func() bool { return false }
+	slot := c14acquireSlot(never)
+	defer func() {
+		if slot != nil {
+			slot.Close()
+		}
+	}()
+	for attempt := 0; ; attempt++ {
+		// a verdict that was started is finished, deadline or not (the set of reported keys must not depend on timing)
+		batches, ex := c14spawn(c14work{Tier: r.R.Tier, Descs: []string{desc}, Ops: []string{op}, MaxStack: -1}, dir, c14nextProc(), stall, never)
+		switch {
+		case ex.died:
+			r.Violationf(c14key(op, cls, "stack-overflow"), cs, "%s on %s killed the process (default 1 GB stack limit): %s", c14api[op], desc, ex.stderr)
+			r.Class(op + ":process-killed")
+			r.Eval(1)
+			r.Add("worker_deaths_confirmed", 1)
+		case ex.hung:
+			if attempt == 0 {
+				continue
+			}
+			r.Violationf(c14key(op, cls, "hang"), cs, "%s on %s made no progress for %v of CPU time (twice, in fresh processes)", op, desc, stall)
+			r.Class(op + ":hang")
+			r.Eval(1)
+		default:
+			// it terminated under the real stack limit: whatever the worker observed is the outcome
+			for _, b := range batches {
+				c14merge(r, b)
+			}
+			r.Class(op + ":" + cls + ":deep-recursion-ends-only-under-default-stack")
+			r.Add("deep_but_bounded_recursions", 1)
+		}
+		return
+	}
+}
+
+// c14rendezvous: file through which shard 0 tells the other shards of the same
+// vcheck run which (op, class) combinations killed a worker in phase 1.
+func c14rendezvous() string {
+	out := os.Getenv("VERIF_OUT")
+	if out == "" {
+		return ""
+	}
+	base := filepath.Base(out)
+	tag := ""
+	if strings.Contains(base, "_confirm") {
+		tag = "c"
+	}
+	return filepath.Join(filepath.Dir(out), fmt.Sprintf("phase1_%d%s.skipkeys", os.Getppid(), tag))
+}
+
+type c14runner struct {
+	r        *vh.Run
+	dir      string
+	stall    time.Duration
+	confirms sync.WaitGroup
+	skipKeys []string
+	ndeaths  int
+	stalls   int
+}
+
+// handle decides what to do after a worker death / stall at ex: the verdict
+// comes from a background run under the default stack limit; returns the
+// position to skip.
+func (c *c14runner) handle(ex c14exit) string {
+	r := c.r
+	if ex.idx == -2 {
+		r.Need(false, "%s", ex.stderr)
+	}
+	if ex.idx < 0 || ex.op == "" || ex.op == "end" || ex.op == "build" {
+		r.Need(false, "worker died outside a case (idx=%d op=%q): %s", ex.idx, ex.op, ex.stderr)
+	}
+	c.confirms.Add(1)
+	go func(desc, op, cls string) {
+		defer c.confirms.Done()
+		c14confirm(r, c.dir, desc, op, cls, 5*c.stall)
+	}(ex.desc, ex.op, ex.cls)
+	if ex.hung {
+		c.stalls++
+		// a stall only takes this (case, op) out; a class is taken out by a death
+		r.Capped("a worker stalled on " + ex.op + " of " + ex.desc)
+	} else {
+		c.ndeaths++
+		c.skipKeys = append(c.skipKeys, ex.op+":"+ex.cls)
+		r.Capped("the (op,class) combinations " + strings.Join(c.skipKeys, ", ") + " are not run on further cases after the smallest case of each killed a worker")
+	}
+	return strconv.Itoa(ex.idx) + "." + ex.op
+}
+
+func c14graphs(r *vh.Run, dir string, shard, nshards int) {
+	c := &c14runner{r: r, dir: dir, stall: 60 * time.Second} // stall: CPU time
+	defer c.confirms.Wait()
+	never := func() bool { return false }
+	rdv := c14rendezvous()
+
+	// phase 1: the minimal cyclic values, all ops, in shard 0 (not subject to the deadline: it produces the verdicts)
+	phase1 := func() {
+		w := c14work{Tier: r.R.Tier, Descs: c14minimalCyclic()}
+		for {
+			w.SkipKeys = c.skipKeys
+			batches, ex := c14spawn(w, dir, c14nextProc(), c.stall, never)
+			if len(batches) > 0 && batches[len(batches)-1].Done {
+				for _, b := range batches {
+					c14merge(r, b)
+				}
+				return
+			}
+			w.Skip = append(w.Skip, c.handle(ex))
+			r.Need(c.ndeaths+c.stalls <= 80, "phase 1 does not converge (%d deaths)", c.ndeaths)
+		}
+	}
+	if shard == 0 {
+		phase1()
+		if rdv != "" {
+			b, _ := json.Marshal(c.skipKeys)
+			os.WriteFile(rdv+".tmp", b, 0644)
+			os.Rename(rdv+".tmp", rdv)
+		}
+	} else {
+		got := false
+		for waited := 0; waited < 3000 && rdv != ""; waited++ { // up to 10 min
+			if b, err := os.ReadFile(rdv); err == nil && json.Unmarshal(b, &c.skipKeys) == nil {
+				got = true
+				break
+			}
+			time.Sleep(200 * time.Millisecond)
+		}
+		if !got {
+			phase1()
+		} else if len(c.skipKeys) > 0 {
+			r.Capped("the (op,class) combinations " + strings.Join(c.skipKeys, ", ") + " are not run on further cases after the smallest case of each killed a worker (decided in shard 0)")
+		}
+	}
+
+	// phase 2: the enumeration
+	w := c14work{Tier: r.R.Tier, Shard: shard, NShards: nshards, Batch: 20000 * nshards}
+	for {
 		if r.Expired() {
 			return
 		}
-		nproc++
-		batches, ex := c14spawn(w, dir, nproc, stall, r.Expired)
+		w.SkipKeys = c.skipKeys
+		batches, ex := c14spawn(w, dir, c14nextProc(), c.stall, r.Expired)
+		finished := false
 		for _, b := range batches {
 			c14merge(r, b)
 			w.From = b.To
 			if b.Done {
 				finished = true
-				r.Set("graph_cases_total", int64(b.Total))
+				r.Set("graph_cases_total", int64(b.Total+len(c14minimalCyclic())))
 			}
 		}
 		if finished {
@@ -1203,64 +1490,14 @@ func c14graphs(r *vh.Run, dir string) {
 		if r.Expired() {
 			return
 		}
-		if ex.idx == -2 {
-			r.Need(false, "%s", ex.stderr)
-		}
-		if ex.idx < 0 || ex.op == "" || ex.op == "end" || ex.op == "build" {
-			r.Need(false, "worker died outside a case (idx=%d op=%q): %s", ex.idx, ex.op, ex.stderr)
-		}
-		pos := strconv.Itoa(ex.idx) + "." + ex.op
-		cs := c14case{Desc: ex.desc, Op: ex.op}
-		if ex.hung {
-			// confirm: the same (case, op) alone, fresh process
-			nproc++
-			_, ex2 := c14spawn(c14work{Tier: w.Tier, Descs: []string{ex.desc}, Ops: []string{ex.op}}, dir, nproc, stall, r.Expired)
-			if r.Expired() {
-				return
-			}
-			switch {
-			case ex2.hung:
-				key := "hang:" + ex.op + ":" + ex.cls
-				r.Violationf(key, cs, "%s on %s made no progress for %v (twice, in fresh processes)", ex.op, ex.desc, stall)
-				r.Class(ex.op + ":hang")
-				r.Eval(1)
-				deaths[ex.op+":"+ex.cls] += c14deathsPerKey
-			case ex2.died:
-				ex.hung, ex.died, ex.stderr = false, true, ex2.stderr+" (after a stall of "+stall.String()+" in the batch run)"
-			default:
-				stalls++
-				r.Add("unconfirmed_stalls", 1)
-				r.Need(stalls < 3, "worker stalls that do not reproduce (last: %s on %s); machine overloaded?", ex.op, ex.desc)
-				continue
-			}
-		}
-		if ex.died {
-			ndeaths++
-			key := ex.op + ":" + ex.cls + ":crash"
-			r.Violationf(key, cs, "%s on %s killed the process: %s", ex.op, ex.desc, ex.stderr)
-			r.Class(ex.op + ":process-killed")
-			r.Eval(1)
-			deaths[ex.op+":"+ex.cls]++
-		}
-		w.Skip = append(w.Skip, pos)
-		if deaths[ex.op+":"+ex.cls] >= c14deathsPerKey {
-			k := ex.op + ":" + ex.cls
-			found := false
-			for _, s := range w.SkipKeys {
-				found = found || s == k
-			}
-			if !found {
-				w.SkipKeys = append(w.SkipKeys, k)
-				r.Capped("after " + strconv.Itoa(c14deathsPerKey) + " worker deaths the (op,class) combinations " + strings.Join(w.SkipKeys, ", ") + " were not run on further cases")
-			}
-		}
-		if ndeaths > 400 {
-			r.Capped("more than 400 worker deaths; graph enumeration abandoned")
+		w.Skip = append(w.Skip, c.handle(ex))
+		if c.ndeaths > 100 || c.stalls > 5 {
+			r.Capped("too many worker deaths/stalls; graph enumeration abandoned")
 			return
 		}
 	}
-	r.Set("worker_processes", int64(nproc))
-	r.Set("worker_deaths", int64(ndeaths))
+	r.Set("worker_deaths_small_stack", int64(c.ndeaths))
+	r.Set("worker_stalls_small_stack", int64(c.stalls))
 }
 
 // ---------------------------------------------------------------------------
@@ -1395,7 +1632,7 @@ func c14nest(tag byte, depth int, inner []byte) []byte {
 	return append(b, inner...)
 }
 
-func c14bytes(r0 *vh.Run) {
+func c14bytes(r0 *vh.Run, shard, nshards int) {
 	r := &c14acc{r: r0, classes: map[string]int64{}}
 	defer r.flush()
 	item := 0
@@ -1409,7 +1646,7 @@ func c14bytes(r0 *vh.Run) {
 	for b0 := 0; b0 < 256 && !r0.Expired(); b0++ {
 		for b1 := 0; b1 < 256; b1++ {
 			item++
-			if !r0.Mine(item) {
+			if item%nshards != shard {
 				continue
 			}
 			c14decode(r, append(buf[:0], byte(b0), byte(b1)), "short")
@@ -1426,7 +1663,7 @@ func c14bytes(r0 *vh.Run) {
 	// (b) single-byte mutations, truncations, one trailing byte of valid encodings
 	for _, enc := range c14corpus() {
 		item++
-		if !r0.Mine(item) {
+		if item%nshards != shard {
 			continue
 		}
 		c14decode(r, enc, "valid")
@@ -1444,7 +1681,7 @@ func c14bytes(r0 *vh.Run) {
 		}
 	}
 	// (c) nesting depth around the decoder's limit, (d) claimed counts / lengths with short bodies
-	if r0.R.Shard == 0 {
+	if shard == 0 {
 		for _, tag := range []byte{arrayType, structType, mapType} {
 			for _, d := range []int{1, MAX_STRUCT_DEPTH, MAX_STRUCT_DEPTH + 1, MAX_COUNT - 1, MAX_COUNT, MAX_COUNT + 1, MAX_COUNT + 2, 5000} {
 				c14decode(r, c14nest(tag, d, []byte{boolType, 1}), "nested")
@@ -1504,11 +1741,11 @@ func TestVerif_C14(t *testing.T) {
 	r.Rule("G: every value graph with N container nodes (array/struct/map), <=S slots per node, each slot one of P primitives {0,\"\",-1,2^63,0x00,true} or a reference to any node " +
 		"(all cycle positions, all sharing patterns; canonical node numbering), plus depth-limit chains (1..MAX_STRUCT_DEPTH+3 containers, chain in slot 0 and slot 1), size-limit and integer/bytes boundary values; " +
 		"on each: CircularRefAndDepthDetection, Serialize(+Deserialize, structural equality), BuildParamToNative, Stringify, Dump, ConvertNeoVmValueHexString, BuildResultFromNeo, run in a worker subprocess " +
-		"(a process death is attributed to the (case, op) published before the call); ops on cyclic graphs containing a multi-entry map are repeated " + strconv.Itoa(c14reps) + "x (map order). " +
+		"with a 8 MiB stack (a process death or stall is attributed to the (case, op) published before the call and is then decided by re-running that (case, op) alone under the runtime's default stack limit); ops on cyclic graphs containing a multi-entry map are repeated " + strconv.Itoa(c14reps) + "x (map order). " +
 		"B: Deserialize on every byte string up to length L, every single-byte mutation/truncation of 25 valid encodings, nesting depths and claimed counts/lengths around the limits; accepted values are re-serialized and compared. " +
 		"distinct = (op, input class, outcome) classes")
 	r.Bound("graph families: " + strings.Join(fams, "; ") + fmt.Sprintf("; byte strings <=%d", r.Pick(3, 4)))
-	r.Assume("a cyclic value must make every serializer/marshaller return an error (Dump: an \"error...\" string); values beyond the depth/size limits only have to terminate without panic")
+	r.Assume("a cyclic value must make every serializer/marshaller return an error (Dump: an \"error...\" string), by whatever means; the answer of CircularRefAndDepthDetection itself is recorded as a class only; values beyond the depth/size limits only have to terminate without panic")
 
 	dir, err := os.MkdirTemp("", "c14w")
 	r.Need(err == nil, "temp dir: %v", err)
@@ -1524,39 +1761,62 @@ func TestVerif_C14(t *testing.T) {
 			acc.flush()
 			return
 		}
-		w := c14work{Tier: r.R.Tier, Descs: []string{rc.Desc}}
+		w := c14work{Tier: r.R.Tier, Descs: []string{rc.Desc}, MaxStack: -1}
 		if rc.Op != "" {
 			w.Ops = []string{rc.Op}
 		}
-		batches, ex := c14spawn(w, dir, 0, 60*time.Second, func() bool { return false })
+		batches, ex := c14spawn(w, dir, 0, 300*time.Second, func() bool { return false })
 		for _, b := range batches {
 			c14merge(r, b)
 		}
 		if ex.died {
-			r.Violationf(ex.op+":"+ex.cls+":crash", rc, "%s on %s killed the process: %s", ex.op, ex.desc, ex.stderr)
+			r.Violationf(c14key(ex.op, ex.cls, "stack-overflow"), rc, "%s on %s killed the process (default 1 GB stack limit): %s", c14api[ex.op], ex.desc, ex.stderr)
 		} else if ex.hung {
-			r.Violationf("hang:"+ex.op+":"+ex.cls, rc, "%s on %s made no progress for 60s", ex.op, ex.desc)
+			r.Violationf(c14key(ex.op, ex.cls, "hang"), rc, "%s on %s made no progress for 300s", ex.op, ex.desc)
 		}
 		return
 	}
 
+	// work split: on the quick tier the (cheap) graph part runs in shard 0 only, so that a tree on which workers
+	// die pays for each death once; the byte-string part is split over the other shards
+	n, me := r.R.NShards, r.R.Shard
+	gShard, gN, bShard, bN := me, n, me, n
+	if r.Quick() && n > 1 {
+		gShard, gN, bShard, bN = me, 1, me-1, n-1 // shard 0: graphs; shards 1..n-1: bytes
+	}
 	var wg sync.WaitGroup
-	wg.Add(1)
-	go func() {
-		defer wg.Done()
-		c14bytes(r)
-	}()
-	c14graphs(r, dir)
+	if bShard >= 0 {
+		wg.Add(1)
+		go func() {
+			defer wg.Done()
+			c14bytes(r, bShard, bN)
+		}()
+	}
+	if gShard < gN {
+		c14graphs(r, dir, gShard, gN)
+	}
 	wg.Wait()
 
-	// non-vacuity (per shard only what every shard must see)
-	r.NeedClass("deserialize:ok:array")
-	r.NeedClass("deserialize:err:eof")
-	if !r.R.CapHit {
-		r.NeedClass("roundtrip:ok:at-depth-limit")
-		r.NeedClass("roundtrip:ok:at-size-limit")
-		r.NeedClass("serialize:overdepth")
-		r.NeedClass("serialize:oversize")
-		r.NeedClass("detect:cyclic:rejected:cycle-at-slot0")
+	// non-vacuity
+	need := func(c string) {
+		r.Need(r.R.Classes[c] > 0, "outcome class %q never observed", c)
+	}
+	if bShard == 0 {
+		need("deserialize:ok:array")
+		need("deserialize:ok:map")
+		need("deserialize:err:eof")
+		need("deserialize:err:depth")
+		need("reserialize:ok")
+	}
+	if gShard == 0 && gN == 1 && !r.R.CapHit {
+		need("roundtrip:ok:at-depth-limit")
+		need("roundtrip:ok:at-size-limit")
+		need("roundtrip:ok:AMS+shared")
+		need("serialize:overdepth")
+		need("serialize:oversize")
+		need("serialize:cyclic:first-slot-path:rejected")
+		need("serialize:cyclic:behind-array-slot>0:rejected")
+		need("native:cyclic:behind-struct-slot>0:rejected")
+		need("stringify:cyclic:behind-unordered-map-entry:rejected")
 	}
 }
